@@ -215,6 +215,24 @@ theorem c02_entry_point_refines (T : Tables) (env : Env) (hT : TablesSound T) (h
       obtain ⟨w, t, g1, g2, g3, _⟩ := (c02_logic_pathway_refines T env hT hc e).1 v h2
       exact ⟨e, w, t, he, g1, g2, g3⟩
 
+/-- The transform pathway (auto-detected for every text that starts with `[` or `{`), literal route: when the parsed
+    text is a display of literals — constants, lists, tuples, nested — and the pathway returns what `ast.literal_eval`
+    returns on such a tree (the structural value `litEval`; the driver computes exactly this, so the real pathway is
+    compared with it on every run), a success result carries Python's value of the text, and nothing was executed. -/
+theorem c02_transform_literal_refines (T : Tables) (env : Env) (cfg : Cfg) (latched : Bool) (d : Pathway) (inp : Inp)
+    (forced : Option Pathway) (tr : List Act) (v w : Val) (r : Bool) (e : Expr)
+    (h : metabolize T env cfg latched d inp forced = (tr, .result true (some v) r (some .beta)))
+    (_he : inp.parsed = some e) (hl : litEval e = some w) (hb : inp.beta = litEval e) :
+    v = w ∧ pyRun T.names env e = ([], .ok v) ∧ tr = [] := by
+  obtain ⟨_, hbody⟩ := metabolize_success T env cfg latched d inp forced tr v r .beta h
+  unfold pathwayBody at hbody
+  simp only [hb, hl, R.pure, Prod.mk.injEq, Except.ok.injEq] at hbody
+  obtain ⟨rfl, rfl⟩ := hbody
+  refine ⟨rfl, ?_, rfl⟩
+  unfold pyRun
+  rw [dup_lit e _ hl]
+  exact pyEval_lit T.names env e _ hl
+
 /-- Literal contents are never rewritten: constants (strings included) are untouched by the normalisation, and so
     is every name other than `true` / `false`. -/
 theorem c02_literals_untouched (v : Val) (n : String) (h1 : n ≠ "true") (h2 : n ≠ "false") :
@@ -265,6 +283,13 @@ example : (krebs Gen.tables envInt (.boolop .and [.name "true", .name "pi"])).2 
 /-- `c02_entry_point_refines`: a success result on the auto-detected logic pathway -/
 example : metabolize Gen.tables envInt ⟨10000, true, false, [], none, true, true, true⟩ false .krebs
     ⟨4, some (.name "true"), none, false⟩ none = ([], .result true (some (.bool true)) false (some .krebs)) := by rfl
+
+/-- `c02_transform_literal_refines`: `["a", (1, 2)]` is a display of literals and the transform pathway returns it -/
+example : litEval (.list [.const (.h 7), .tuple [.const (.h 1), .const (.h 2)]]) = some (.list [.h 7, .tuple [.h 1, .h 2]]) ∧
+    metabolize Gen.tables envInt ⟨10000, true, false, [], none, true, true, true⟩ false .beta
+      ⟨13, some (.list [.const (.h 7), .tuple [.const (.h 1), .const (.h 2)]]), some (.list [.h 7, .tuple [.h 1, .h 2]]), false⟩
+      none = ([], .result true (some (.list [.h 7, .tuple [.h 1, .h 2]])) false (some .beta)) := by
+  exact ⟨rfl, rfl⟩
 
 /-- `c02_literals_untouched_at_any_depth`: `'true' == '1'` (two string constants, no name) -/
 example : "true" ∉ namesOf (.compare (.const (.h 1)) [.eq] [.const (.h 2)]) ∧
